@@ -184,7 +184,7 @@ class TableHooks(QHooks):
         return [Outcome(ret=TOP)]
 
     prim_put = prim_puts = prim_flush = prim_okay = prim_err = prim_err_syntax = prim_err_nozero = prim_err_toobig = prim_err_deleted = _out
-    prim_err_nosuch = prim_err_nounlink = prim_printfn = prim_blast = prim_substdio_fdbuf = prim_close = _out
+    prim_err_nosuch = prim_err_nounlink = prim_printfn = prim_blast = prim_substdio_fdbuf = prim_close = _out      # CallerHooks overrides blast/fdbuf
 
     def prim_die(self, E, x, args):
         self.on_return(E, x.fn, None)
@@ -220,6 +220,19 @@ class CallerHooks(TableHooks):
         v = g1v(args[0])
         E.set('$opened', fs(v))
         return [Outcome(ret=fs(-1)), Outcome(ret=fs(('fd', 'msg')))]
+
+    def prim_substdio_fdbuf(self, E, x, args):
+        ss, fd = g1v(args[0]), g1v(args[2])
+        if isinstance(ss, tuple) and ss[0] == '&':
+            E.set('$bound:' + ss[1], fs(fd if fd is not None else '?'))
+        return [Outcome(ret=TOP)]
+
+    def prim_blast(self, E, x, args):
+        ss = g1v(args[0])
+        b = g1(E, '$bound:' + ss[1]) if isinstance(ss, tuple) and ss[0] == '&' else None
+        self.site('message-read-through-a-reader-freshly-bound-to-the-opened-file', x, b == ('fd', 'msg'),
+                  'blast() reads through a substdio that was bound to %s in this command (documented: substdio_fdbuf on the descriptor just opened): text left in the buffer by an earlier TOP would be sent in front of this message' % (b,), E)
+        return [Outcome(ret=TOP)]
 
 
 class QuitHooks(TableHooks):
